@@ -116,10 +116,26 @@ def run(ctx):
             if nv <= 5:
                 ctx.violation('%s: accessors answer "%s", the fields demand "%s"' % (ln[:100], a[:300], w[:300]), {'lines': [ln], 'expect': w, 'impl': a}, key=' '.join(ln.split(' ')[:2]))
     ctx.sample({'line': lines[0][:200], 'expect': want[0][:300], 'impl': impl[0][:300]})
+    # the accessor model (Accessors.lean, through the driver): parsed hellos of this run, and every ClientHello-parser input of the
+    # coverage-guided corpus (mostly malformed) re-used as accessor input - implementation and model must answer alike
+    acc = [ln for ln in lines if ln.startswith('hello_acc ')]
+    for l in common.cg_lines(ctx, ('hs_client_hello ', 'dtls_hs ')):
+        acc.append('hello_acc %s %s' % ('tls' if l.startswith('hs_client_hello') else 'dtls', l.split(' ')[-1]))
+    ai, am = ctx.run_both(acc)
+    nd = 0
+    for ln, a, b in zip(acc, ai, am):
+        a = core.split_side(a)[0]
+        ctx.count('accessor_model', 'agree' if a == b else 'differ')
+        if a != b:
+            nd += 1
+            ctx.cov['model_vs_impl_disagreements'] += 1
+            if nd <= 3 and not nv:
+                ctx.violation('correspondence broken on %s: accessors of the implementation "%s", accessor model "%s"' % (ln[:100], a[:200], b[:200]),
+                              {'lines': [ln], 'impl': a, 'model': b}, found_input=False, key='corr:acc')
     ctx.sample({'line': lines[1][:200], 'expect': want[1][:300], 'impl': impl[1][:300]})
     common.lean_failure_violation(ctx, ok)
     return ctx.finish(LEVEL,
-        rule='parsed TLS and DTLS ClientHellos and constructed ClientHello / ServerHello values (random slices of length 0,3,4,5,32,33; leading words 0, 1, 0x7fffffff, 0x80000000, 0xffffffff and random; cipher lists mixing registered and unregistered ids; session id / extension block present, absent, empty): every accessor (version, random, session_id, ciphers, comp, ext, rand_time, rand_bytes, cipher_suites, get_ciphers, get_version, get_cipher) against the fields the generator wrote and the registry file; distinct = (kind, outcome shape)',
+        rule='parsed TLS and DTLS ClientHellos and constructed ClientHello / ServerHello values (random slices of length 0,3,4,5,32,33; leading words 0, 1, 0x7fffffff, 0x80000000, 0xffffffff and random; cipher lists mixing registered and unregistered ids; session id / extension block present, absent, empty): every accessor (version, random, session_id, ciphers, comp, ext, rand_time, rand_bytes, cipher_suites, get_ciphers, get_version, get_cipher) against the fields the generator wrote and the registry file, and against the accessor model run by the driver (also on the ClientHello inputs of the coverage-guided corpus); distinct = (kind, outcome shape)',
         checker_cmd='cd /verif/lean && lake build TlsModel.Props.C15',
         assumptions=['the trait accessors are the structure fields; the oracle is the generator\'s own field values and the registry file, not the Lean driver'])
 
